@@ -15,7 +15,7 @@ pub fn spec(tier: Tier) -> RelSpec {
     // exploration aid (not a registered tier): MC_C05_DEPTH=3
     if let Ok(d) = std::env::var("MC_C05_DEPTH") {
         let d: usize = d.parse().unwrap_or(3);
-        return RelSpec { property: "C05", cfgs: vec![mk(d, vec![SrcKind::OpenT, SrcKind::LetClosed], 1)], exh_depth: 0, exh_size: (1, 1), decides: vec![Kind::Arity, Kind::Names], keyfn };
+        return RelSpec { property: "C05", cfgs: vec![mk(d, vec![SrcKind::OpenT, SrcKind::LetClosed], 1)], exh_depth: 0, exh_size: (1, 1), decides: vec![Kind::Arity, Kind::Names], keyfn, extra: None };
     }
     let cfgs = match tier {
         Tier::Quick => vec![
@@ -33,7 +33,100 @@ pub fn spec(tier: Tier) -> RelSpec {
         exh_size: (1, 1),
         decides: vec![Kind::Arity, Kind::Names],
         keyfn,
+        extra: Some(sstring_part),
     }
+}
+
+/// Relations given as SQL text (`from s"SELECT … FROM …"`): every projection list of up to 3 (quick: 2) items over
+/// bare, qualified and aliased columns of one or two tables, alone and followed by a transform that keeps / cuts
+/// the pipeline. The frame of such a relation is what the SQL text projects: the compiled statement must return
+/// the columns — names, count, order — and the rows that the text returns when run directly.
+fn sstring_part(run: &mut crate::report::Run, tier: Tier) {
+    use crate::relcheck::{dname, opts, EXEC_DIALECTS};
+    use serde_json::json;
+    const ITEMS: &[&str] = &["a", "b", "t.a", "t.b", "b AS x", "t.a AS y", "u.d", "u.a", "a AS b"];
+    const TAILS: &[(&str, &[&str])] = &[("", &[]), (" | take 5", &[]), (" | derive {zz = 1}", &["zz"]), (" | take 5 | filter true", &[])];
+    let maxlen = tier.pick(2, 3);
+    let mut lists: Vec<Vec<&str>> = vec![];
+    let mut frontier: Vec<Vec<&str>> = vec![vec![]];
+    for _ in 0..maxlen {
+        let mut next = vec![];
+        for l in &frontier {
+            for it in ITEMS {
+                let mut l2 = l.clone();
+                l2.push(*it);
+                next.push(l2);
+            }
+        }
+        lists.extend(next.clone());
+        frontier = next;
+    }
+    let db = crate::sqlite::Db::new();
+    let _ = db.exec_batch("INSERT INTO t VALUES (1, 10), (2, 20), (3, NULL); INSERT INTO u VALUES (1, 7), (2, 8), (9, 9);");
+    let mut reported = std::collections::BTreeSet::new();
+    for l in &lists {
+        let joined = l.iter().any(|i| i.starts_with("u."));
+        let from = if joined { "t JOIN u ON t.a = u.a" } else { "t" };
+        let raw = format!("SELECT {} FROM {from}", l.join(", "));
+        // the text itself must be a valid query (a bare `a` over the join is ambiguous in SQL)
+        let Ok((raw_names, mut raw_rows)) = db.query(&raw) else { continue };
+        raw_rows.sort_by(|x, y| row_cmp(x, y));
+        for (tail, added) in TAILS {
+            let src = format!("from s\"{raw}\"{tail}");
+            for d in EXEC_DIALECTS.iter() {
+                run.count("sstring_relations:cases", 1);
+                let sql = match crate::iso::guard(|| prqlc::compile(&src, &opts(*d))) {
+                    Ok(Ok(s)) => s,
+                    // a relation the compiler cannot take (duplicate names in a later transform …) is not a wrong frame
+                    _ => {
+                        run.count("sstring_relations:not_compiled", 1);
+                        continue;
+                    }
+                };
+                run.validated += 1;
+                let want: Vec<String> = raw_names.iter().cloned().chain(added.iter().map(|s| s.to_string())).collect();
+                let bad = match db.query(&sql) {
+                    Err(e) => Some(format!("engine rejects the statement: {e}")),
+                    Ok((names, mut rows)) => {
+                        // SQLite labels the second of two same-named columns of a sub-query `name:1`
+                        let names: Vec<String> = names
+                            .into_iter()
+                            .map(|n| match n.rsplit_once(':') {
+                                Some((base, k)) if !k.is_empty() && k.chars().all(|c| c.is_ascii_digit()) => base.to_string(),
+                                _ => n,
+                            })
+                            .collect();
+                        rows.sort_by(|x, y| row_cmp(x, y));
+                        if names != want {
+                            Some(format!("columns {names:?}, the SQL text projects {want:?}"))
+                        } else if tail.is_empty() && !(rows.len() == raw_rows.len() && rows.iter().zip(&raw_rows).all(|(x, y)| row_eq(x, y))) {
+                            Some("same columns, different rows".to_string())
+                        } else {
+                            None
+                        }
+                    }
+                };
+                if let Some(why) = bad {
+                    let sorted_names = {
+                        let mut s = raw_names.clone();
+                        s.sort();
+                        s.dedup();
+                        s
+                    };
+                    let key = if why.starts_with("columns") && !raw_names.windows(2).all(|w| w[0] < w[1]) && !l.iter().any(|i| i.contains('.')) {
+                        let _ = sorted_names;
+                        "sstring-relation-columns-sorted-and-merged-by-name".to_string()
+                    } else {
+                        format!("sstring-relation-frame-differs-from-sql-text:{}", dname(*d))
+                    };
+                    if reported.insert((key.clone(), l.clone())) {
+                        run.violate(Some(key), format!("[{}] {src} → {} :: {why}", dname(*d), sql.replace('\n', " ")), json!({"driver":"sstring","prql": src, "dialect": dname(*d), "sql": sql, "detail": why}));
+                    }
+                }
+            }
+        }
+    }
+    run.count("sstring_relations:projection_lists", lists.len() as u64);
 }
 
 pub fn run(tier: Tier) -> i32 {
